@@ -67,6 +67,9 @@ def specs():
     S["np_log10"] = dict(params=[("k1", None)], vars=[("x", None)], reactions=[("v1", R.nplog10_law, ["x", "k1"], {"x": -1})])
     S["log_with_base"] = dict(params=[("k1", None)], vars=[("x", None)], reactions=[("v1", R.logbase_law, ["x", "k1"], {"x": -1})])
     S["remainder"] = dict(params=[("k1", None)], vars=[("x", None), ("y", None)], reactions=[("v1", R.remainder_law, ["x", "y", "k1"], {"x": -1, "y": 1})])
+    S["two_computed_coefs_one_species"] = dict(params=[("k1", None), ("k2", None)], vars=[("x", None), ("y", None)], reactions=[
+        ("v1", R.mass_action_1s, ["x", "k1"], {"x": -1, "y": ("d", R.twice, ["k2"])}),
+        ("v2", R.mass_action_1s, ["x", "k2"], {"x": -1, "y": ("d", R.neg, ["k1"])})])
     S["abs"] = dict(params=[("k1", None)], vars=[("x", None)], reactions=[("v1", R.abs_law, ["x", "k1"], {"x": -1})])
     S["minmax"] = dict(params=[("k1", None)], vars=[("x", None), ("y", None)], reactions=[("v1", R.minmax_law, ["x", "y", "k1"], {"x": -1, "y": 1})])
     S["helper_call"] = dict(params=[("k1", None)], vars=[("x", None)], reactions=[("v1", R.calls_helper, ["x", "k1"], {"x": -1})])
